@@ -34,7 +34,11 @@ use sozu_lib::server::Server;
 use verif_harness::*;
 
 const CLUSTER: &str = "c19";
-const RT: Duration = Duration::from_millis(4000);
+/// deadline for a delivery the oracle expects; C19E_RT_MS overrides it (the check re-runs a failing
+/// scenario alone with a much longer deadline before it reports anything)
+fn rt() -> Duration {
+    Duration::from_millis(std::env::var("C19E_RT_MS").ok().and_then(|v| v.parse().ok()).unwrap_or(4000))
+}
 const QUIET: Duration = Duration::from_millis(400);
 
 fn free_udp_port() -> u16 {
@@ -168,6 +172,7 @@ fn run(c: &Case, out: &mut Out) {
     let mut front: Option<SocketAddr> = None;
     // oracle state
     let (mut with_port, mut responses, mut requests, mut pp, mut max_flows) = (true, 0u32, 0u32, false, 0u32);
+    let mut pp_every = false;
     // flow key -> (replies so far, requests so far); a key is the client address (4-tuple) or its IP (2-tuple)
     let mut live: HashMap<String, (u32, u32, usize, SocketAddr, i128, SocketAddr)> = HashMap::new(); // + backend index, upstream peer, owner client, its address
     let mut sent_by: HashMap<i128, Vec<Vec<u8>>> = HashMap::new();
@@ -182,6 +187,7 @@ fn run(c: &Case, out: &mut Out) {
                 max_flows = a[4].n() as u32;
                 let nb = a[5].n() as usize;
                 let idle_s = a.get(6).map_or(30, |t| t.n() as u32);
+                pp_every = a.get(7).map_or(false, |t| t.n() == 1);
                 let mut w = Worker::start();
                 let faddr = SocketAddr::new(Ipv4Addr::LOCALHOST.into(), free_udp_port());
                 let mut ok = w.req(RequestType::AddUdpListener(UdpListenerConfig {
@@ -207,7 +213,7 @@ fn run(c: &Case, out: &mut Out) {
                         responses: Some(responses),
                         requests: Some(requests),
                         send_proxy_protocol: Some(pp),
-                        proxy_protocol_every_datagram: Some(false),
+                        proxy_protocol_every_datagram: Some(pp_every),
                         health: None,
                     }),
                     ..Default::default()
@@ -261,7 +267,7 @@ fn run(c: &Case, out: &mut Out) {
                 // larger than max_rx_datagram_size (1500): dropped before any flow is allocated
                 let admitted = payload.len() <= 1500 && (existing || (live.len() as u32) < cap);
                 // wait for the datagram at some backend
-                let deadline = Instant::now() + if admitted { RT } else { QUIET };
+                let deadline = Instant::now() + if admitted { rt() } else { QUIET };
                 let mut hit: Option<(usize, Seen)> = None;
                 while Instant::now() < deadline && hit.is_none() {
                     for (bi, b) in backends.iter().enumerate() {
@@ -296,8 +302,11 @@ fn run(c: &Case, out: &mut Out) {
                         if f.3 != s.peer {
                             out.viol("e2e-sticky", &format!("client {ci}: flow changed its upstream socket {} -> {}", f.3, s.peer));
                         }
-                        if pp && adv.is_some() {
+                        if pp && !pp_every && adv.is_some() {
                             out.viol("e2e-isolated", &format!("client {ci}: PROXY header repeated on a later datagram of the flow"));
+                        }
+                        if pp && pp_every && adv != Some(f.5) {
+                            out.viol("e2e-isolated", &format!("client {ci}: PROXY header on a later datagram advertises {adv:?}, the flow's client is {}", f.5));
                         }
                     } else {
                         for (k, f) in &live {
@@ -326,7 +335,7 @@ fn run(c: &Case, out: &mut Out) {
                             out.viol("e2e-isolated", &format!("client {owner}: a {}-byte reply above max_rx_datagram_size was returned", want.len()));
                         }
                     } else if !exhausted_by_request {
-                        match recv_one(&clients[&owner], RT) {
+                        match recv_one(&clients[&owner], rt()) {
                             None => out.viol("e2e-isolated", &format!("client {ci}: no reply came back from backend {bi} to the flow's client {owner}")),
                             Some(r) if r != want => out.viol("e2e-isolated", &format!("client {owner}: received a reply that is not the echo of the datagram just forwarded on its flow")),
                             _ => {}
@@ -373,7 +382,7 @@ fn run(c: &Case, out: &mut Out) {
                             responses: Some(responses),
                             requests: Some(requests),
                             send_proxy_protocol: Some(pp),
-                            proxy_protocol_every_datagram: Some(false),
+                            proxy_protocol_every_datagram: Some(pp_every),
                             health: None,
                         }),
                         ..Default::default()
